@@ -60,6 +60,12 @@ def gen(rng):
         if r < 0.25:
             ops.append({"op": "beacon", "st": rng.randrange(n)})
         snd = rng.randrange(n)
+        if rng.random() < 0.3:
+            # a station gets a new position fix (a few metres, new speed/heading) -- through the router's own TPV refresh
+            # (whole-second timestamps: several fixes share one timestamp, or the timestamp steps back below the
+            # millisecond one installed before) or with a millisecond timestamp; often it is the next sender
+            ops.append({"op": "move", "st": snd if rng.random() < 0.7 else rng.randrange(n), "dn": rng.uniform(-3, 3), "de": rng.uniform(-3, 3),
+                        "s": rng.randrange(0, 4000), "h": rng.randrange(3600), "via": rng.choice(("tpv", "tpv", "ms"))})
         kind = rng.choice(("shb", "gbc", "gac", "guc", "guc"))
         if topo == "line" and kind in ("gbc", "gac"):
             kind = "guc"
@@ -116,6 +122,8 @@ def run_case(c, res):
                 w.ether.connect(f"S{i}", f"S{i + 1}")
         reqs = []
         tagno = 0
+        pos = [(sd["lat"], sd["lon"]) for sd in c["stations"]]
+        dyn = [(bool(sd["pai"]), sd["s"], sd["h"]) for sd in c["stations"]]
         for op in c["ops"]:
             try:
                 if op["op"] == "beacon":
@@ -140,9 +148,24 @@ def run_case(c, res):
                 elif op["op"] == "adv":
                     w.clock.advance(op["dt"])
                     w.settle()
-                    for s_ in S:   # stations keep their position vectors current
-                        sd = c["stations"][S.index(s_)]
-                        s_.set_position(sd["lat"], sd["lon"], pai=bool(sd["pai"]), s=sd["s"], h=sd["h"])
+                    for k_, s_ in enumerate(S):   # stations keep their position vectors current
+                        s_.set_position(pos[k_][0], pos[k_][1], pai=dyn[k_][0], s=dyn[k_][1], h=dyn[k_][2])
+                elif op["op"] == "move":
+                    w.settle()
+                    k_ = op["st"]
+                    la, lo = G.destination(pos[k_][0] / 1e7, pos[k_][1] / 1e7, op["dn"], op["de"])
+                    if op["via"] == "tpv":
+                        import datetime
+                        iso = datetime.datetime.fromtimestamp(int(w.clock.now()), datetime.timezone.utc).strftime("%Y-%m-%dT%H:%M:%S.000Z")
+                        S[k_].router.refresh_ego_position_vector({"lat": la, "lon": lo, "speed": op["s"] / 100.0, "track": op["h"] / 10.0, "time": iso, "mode": 3})
+                        pv_ = S[k_].router.ego_position_vector
+                        pos[k_] = (pv_.latitude, pv_.longitude)
+                        dyn[k_] = (bool(pv_.pai), pv_.s, pv_.h)
+                    else:
+                        pos[k_] = (to_int(la), to_int(lo))
+                        dyn[k_] = (dyn[k_][0], op["s"], op["h"])
+                        S[k_].set_position(pos[k_][0], pos[k_][1], pai=dyn[k_][0], s=op["s"], h=op["h"])
+                    res.count("position_fixes")
                 elif op["op"] == "req":
                     tagno += 1
                     snd = S[op["snd"]]
@@ -161,7 +184,7 @@ def run_case(c, res):
                                       traffic=tc(op["scf"], op["co"], op["tcid"]), hop=op["hop"],
                                       lifetime=None if op["life_ms"] is None else op["life_ms"] / 1000.0,
                                       dest=S[op["dst"]].addr if op["kind"] == "guc" else None)
-                    rec = {"op": op, "tag": tag, "payload": payload, "t": w.clock.now(), "pv": pv_dict(snd.router.ego_position_vector),
+                    rec = {"op": op, "tag": tag, "payload": payload, "t": w.clock.now(), "pv": pv_dict(snd.router.ego_position_vector), "pos": list(pos),
                            "dst_known": dst_known, "pending": pending, "exc": None}
                     reqs.append(rec)
                     res.count("requests")
@@ -219,7 +242,13 @@ def run_case(c, res):
                     if i == snd:
                         continue
                     v = G.classify(ar["shape"], ar["a"], ar["b"], ar["angle"], ar["lat"] / 1e7, ar["lon"] / 1e7,
-                                   c["stations"][i]["lat"] / 1e7, c["stations"][i]["lon"] / 1e7)
+                                   r["pos"][i][0] / 1e7, r["pos"][i][1] / 1e7)
+                    if v != "band" and any(o_["op"] == "move" for o_ in c["ops"]):
+                        # stations move by a few metres: a receiver within 10 m of the border is not judged
+                        d_ = [G.classify(ar["shape"], max(1, ar["a"] + k2), max(1, ar["b"] + k2), ar["angle"], ar["lat"] / 1e7, ar["lon"] / 1e7,
+                                         r["pos"][i][0] / 1e7, r["pos"][i][1] / 1e7) for k2 in (-10, 10)]
+                        if any(x != v for x in d_):
+                            v = "band"
                     (must if v == "in" else may if v == "band" else forbidden).add(i)
                 size = G.area_m2(ar["shape"], ar["a"], ar["a"] if ar["shape"] == 0 else ar["b"])
                 if size > 10e6:
